@@ -25,10 +25,12 @@ RULE = ("one API call {get_defaults, parse_object(dict|Namespace), parse_string,
         "Tuple[Tuple[Base,int],str], Tuple[Tuple[Tuple[int,Base],List[Base]],int] (specs up to three tuple levels deep), specs with "
         "dict_kwargs; validate and dump (twice) run on the configuration before the two instantiate calls and a deep identity-aware "
         "snapshot of it is compared; non-trivial = at least 2 specs. get_defaults cases also declare child arguments with a "
-        "dotted dest below a dict-valued argument (--k {..} then --k.hi). Plus, exhaustively, the 61 'bracket' cases: entry point "
+        "dotted dest below a dict-valued argument (--k {..} then --k.hi). Plus, exhaustively, the 84 'bracket' cases: entry point "
         "{parse_args with --cfg file, get_defaults / format_help / print_help / parse_args with default_config_files, List[int] list "
         "file (enable_path), parse_env, and file-less get_defaults / parse_args / parse_object / parse_string / dump(skip_default) / "
-        "validate} x directory flavour {plain, symlink, relative, both} x {succeeds, fails midway} on parsers that also declare "
+        "validate; parse_object / validate / dump of typed lists inside dict-SUBCLASS values (OrderedDict, defaultdict; Dict[str,List[float]], "
+        "Mapping[str,List[Enum]], Dict[str,Tuple[List[float],int]]); parse then save(cfg, path) in multi-file mode / dump on parsers with "
+        "parse-time links (top level and inside a subcommand; one link leaves its target's parent empty)} x directory flavour {plain, symlink, relative, both} x {succeeds, fails midway} on parsers that also declare "
         "untyped optionals and positionals set by the file and a mapping default (the caller's own dict) with a child argument below it: globals, the argv list / environ dict, action.default "
         "of every declared action and get_defaults() without default config files before vs after. The expected objects of an "
         "'instantiate twice' case are computed by the harness from the configuration given, the parser defaults and the class "
@@ -51,6 +53,9 @@ ASSUMPTIONS = [
     "model look keys up flat",
     "yaml/json loading of a document is external: the model is handed the loaded object graph (fresh objects)",
     "exception classes are not compared; user-defined objects, threads and C-level state are outside the model",
+    "dict subclasses (OrderedDict - which recreate_branches hands over uncopied - and defaultdict) and argument links are NOT in the heap "
+    "model: they are only exercised by the bracket cases, where the configuration is snapshotted (value, exact type and identity of "
+    "every nested container, exact type of every leaf) before and after the call",
 ]
 EXHAUSTIVE = {"quick": False, "thorough": False}
 FINDING_CLASSES = {1: "parse-object-adapts-in-place", 2: "container-below-tuple-shared", 3: "default-below-tuple-shared"}
@@ -494,15 +499,16 @@ def fixed_inst_cases():
 
 
 AUX_ENTRIES = ["args_cfg", "dflt_get_defaults", "dflt_help", "dflt_parse_args", "list_file", "parse_env", "dflt_print_help",
-               "get_defaults", "parse_args", "parse_object", "parse_string", "dump_skip_default", "validate"]
-AUX_NO_FILE = AUX_ENTRIES[7:] + ["parse_env"]
+               "get_defaults", "parse_args", "parse_object", "parse_string", "dump_skip_default", "validate",
+               "od_parse_object", "od_validate", "od_dump", "save_links", "save_links_sub", "dump_links"]
+AUX_NO_FILE = AUX_ENTRIES[7:16] + ["parse_env", "dump_links"]
 
 
 def aux_cases():
     """all of them: entry point x directory flavour x (succeeds | fails midway)"""
     return [{"kind": "aux", "entry": e, "dir": d, "fail": f} for e in AUX_ENTRIES
             for d in (["plain"] if e in AUX_NO_FILE else ["plain", "symlink", "rel", "symrel"])
-            for f in ((False,) if e == "get_defaults" else (False, True))]
+            for f in ((False,) if e in ("get_defaults", "dump_links") else (False, True))]
 
 
 def is_aux(case):
@@ -714,7 +720,8 @@ def describe(case, obs):
         return {"entry point": case["entry"], "directory of the file reached": case["dir"], "made to fail midway": case["fail"],
                 "returned": obs["ok"], "exception": obs.get("exc", ""),
                 "globals_changed": [GLOBAL_NAMES[i] for i, b in enumerate(obs["globals"]) if not b],
-                "argument object (argv list / environ dict) unchanged": obs["args_same"],
+                "argument object (argv list / environ dict / configuration; value, exact type and identity of every nested "
+                "container, exact type of every leaf) unchanged": obs["args_same"],
                 "declared defaults (action.default per action; get_defaults() without default config files) unchanged": obs["defaults_same"]}
     if is_inst(case):
         return {"parser(key,kind,default spec)": case["decls"], "configuration given": case["cfg"],
